@@ -249,6 +249,9 @@ func (p *Parser) led(tokenType tokType, node ASTNode) (ASTNode, error) {
 		right, err := p.parseExpression(bindingPowers[tAnd])
 		return ASTNode{nodeType: ASTAndExpression, children: []ASTNode{node, right}}, err
 	case tLparen:
+		if node.nodeType != ASTField || p.index < 2 || p.tokens[p.index-2].tokenType != tUnquotedIdentifier {
+			return ASTNode{}, p.syntaxErrorToken("Invalid function name, expected an unquoted identifier", p.tokens[p.index-1])
+		}
 		name := node.value
 		var args []ASTNode
 		for p.current() != tRparen {
